@@ -2,11 +2,12 @@ import PyomaVerif.Codec
 import PyomaVerif.Ops.C12
 import PyomaVerif.Ops.C09
 import PyomaVerif.Ops.C02
+import PyomaVerif.Ops.C01
 /-! Line-protocol driver: one JSON object per line in, one JSON value per line out. -/
 open Lean PV PV.Codec
 
 def allOps : List (String × (Json → Except String Json)) :=
-  PV.Ops.C12.ops ++ PV.Ops.C09.ops ++ PV.Ops.C02.ops
+  PV.Ops.C12.ops ++ PV.Ops.C09.ops ++ PV.Ops.C02.ops ++ PV.Ops.C01.ops
 
 def handle (line : String) : String :=
   match Json.parse line with
